@@ -1,7 +1,7 @@
 (** Entry points for the extracted driver (ocaml/c05): the models and the specification side by
     side on one input.  Nothing is proved about these wrappers; they only bundle calls. *)
 From RB Require Import Base.Prelude Sig.Types Sig.Parser Sig.Validator Wire.Bytes Wire.Align Wire.Text
-  Wire.Value Wire.SpecEnc Wire.Decode Names.Str Names.Model Msg.Flags Msg.Utf8 Msg.Header Msg.HeaderSpec Msg.MsgSpec Msg.HeaderDecode.
+  Wire.Value Wire.SpecEnc Wire.Decode Names.Str Names.Model Msg.Flags Msg.Utf8 Msg.Header Msg.HeaderSpec Msg.MsgSpec Msg.HeaderDecode Msg.StdMsgs.
 
 (* model result and the specification's header for a message *)
 Definition op_marshal (m : msg) (serial : N) : outcome (list N) * list N :=
@@ -47,3 +47,26 @@ Definition op_spec_header (be : bool) (typ flags blen serial : N) (fs : list hfi
 
 (* HeaderFlags: (is_set, set, unset, toggle) *)
 Definition op_flags (f : hflag) (x : N) : bool * N * N * N := (is_set f x, set f x, unset f x, toggle f x).
+
+(* the message the harness builds for an `m` line (harness/src/bin/c05.rs build_msg): through the builders of
+   message_builder.rs in mode b where they apply, else field by field; then the parts no builder sets *)
+Definition op_build (mode_b : bool) (be : bool) (typ : mtype) (flags : N) (rs : option N)
+           (iface dest sender member path err : option (list N)) (body sg : list N) (nfds : N) : msg :=
+  let direct := {| m_typ := typ; m_flags := 0; m_be := be; m_reply_serial := None; m_interface := iface;
+                   m_destination := dest; m_sender := None; m_member := member; m_object := path; m_error_name := None;
+                   m_body := []; m_sig := []; m_nfds := 0 |} in
+  let base :=
+    if mode_b then
+      match typ, member with
+      | MCall, Some mem => build_call be mem path iface dest
+      | MSignal, Some mem =>
+          match iface, path with
+          | Some i, Some p => build_signal be i mem p dest
+          | _, _ => direct
+          end
+      | _, _ => direct
+      end
+    else direct in
+  {| m_typ := m_typ base; m_flags := flags; m_be := m_be base; m_reply_serial := rs; m_interface := m_interface base;
+     m_destination := m_destination base; m_sender := sender; m_member := m_member base; m_object := m_object base;
+     m_error_name := err; m_body := body; m_sig := sg; m_nfds := nfds |}.
